@@ -4,13 +4,14 @@ func init() { register("C10", checkC10) }
 
 func checkC10(p *Program, tier string) *Result {
 	r := newResult("C10")
-	r.Explanation = "Soundness direction ('PASS only if'). R-PROVENANCE: every authentication reply site of the server universe is enumerated with its status constants; exactly one can carry AuthenStatusPass and it is dominated by the success edge of bcrypt.CompareHashAndPassword(configured hash or keychain result of that authenticator, password extracted from this request's own body); the authenticator a session is handed to is GetUser(u).Authenticate with u the START user of this request or the handler object's user name (assigned only from this session's START/CONTINUE), behind the nil test; continuations are bound to the session's own handler object and the password state is entered only with a GETPASS reply. R-ORDER: the authenticator is reached only with a non-empty password; a user whose authenticator factory fails is left out; a group's authenticator is inherited only while the user has none, groups in order. R-NILIFACE/NewAAA defaults: users without authenticator get the default one, whose only reply is FAIL."
+	r.Explanation = "Soundness direction ('PASS only if'). R-PROVENANCE: every authentication reply site of the server universe is enumerated with its status constants; exactly one can carry AuthenStatusPass and it is dominated by the success edge of bcrypt.CompareHashAndPassword(configured hash or keychain result of that authenticator, password extracted from this request's own body); the authenticator a session is handed to is GetUser(u).Authenticate with u the START user of this request or the handler object's user name (assigned only from this session's START/CONTINUE), behind the nil test; continuations are bound to the session's own handler object and the password state is entered only with a GETPASS reply. R-ORDER: the authenticator is reached only with a non-empty password; a user whose authenticator factory fails is left out; a group's authenticator is inherited only while the user has none, groups in order; the authenticator factory is called with the Name of the user being built and the loader keeps no map of handlers (a handler, which has its user's name baked in, is never handed to another user). R-NILIFACE/NewAAA defaults: users without authenticator get the default one, whose only reply is FAIL."
 	ruleAuthenProvenance(p, r)
 	ruleAuthenBinding(p, r)
 	ruleEmptyPassword(p, r)
 	ruleContinuationStates(p, r)
 	ruleAbortFirst(p, r)
 	ruleLoaderAuthenticators(p, r)
+	ruleAuthenticatorPerUser(p, r)
 	ruleDefaultAAA(p, r)
 	ruleBuildKeepsConfig(p, r)
 	// 'a user that exists in the connection's scope': the handler of a scope sees that scope's own, freshly
